@@ -101,6 +101,25 @@ impl Compound for Mixed {
     }
 }
 
+static COLD: OnceLock<&'static AssetCache<MemSource>> = OnceLock::new();
+static LOCAL_COLD: OnceLock<usize> = OnceLock::new();
+
+/// loads "m" itself, and "nr" inside `no_record` called on OTHER caches (one without a reloader, one
+/// hot-reloaded): recording is a switch of the thread, whichever cache it is asked through
+pub struct NoRecVia(pub Value);
+impl Compound for NoRecVia {
+    fn load(cache: AnyCache, _id: &SharedString) -> Result<Self, BoxedError> {
+        let m = cache.load::<Leaf<0>>("m")?.read().data();
+        let cold = *COLD.get().unwrap();
+        let a = cold.no_record(|| cache.load::<Leaf<0>>("nr").map(|h| h.read().data()))?;
+        let other = *OTHER.get().unwrap();
+        let b = other.no_record(|| cache.load::<Leaf<0>>("nr2").map(|h| h.read().data()))?;
+        let c = cold.as_any_cache().no_record(|| cache.load::<Leaf<0>>("nr3").map(|h| h.read().data()))?;
+        let _ = LOCAL_COLD.get();
+        Ok(NoRecVia(json!([m, a, b, c])))
+    }
+}
+
 /// `amv c14-extra <seed>`
 pub fn c14_extra(_args: &[String]) {
     let mut rep = Report::default();
@@ -146,6 +165,44 @@ pub fn c14_extra(_args: &[String]) {
         }
     }
     let _ = ids;
+    // no_record asked through another cache (cold, hot, AnyCache of the cold one)
+    {
+        let cold_src = MemSource::new(false);
+        let cold: &'static AssetCache<MemSource> = Box::leak(Box::new(AssetCache::without_hot_reloading(cold_src)));
+        let _ = COLD.set(cold);
+        for id in ["nr", "nr2", "nr3"] {
+            src.put(id, "x", b"v1");
+        }
+        let via = main.load::<NoRecVia>("via").expect("load via");
+        rep.cases += 1;
+        for id in ["nr", "nr2", "nr3"] {
+            let before = rid_of(via.last_reload_id());
+            src.put(id, "x", b"v2");
+            src.send(&[OwnedDirEntry::File(id.into(), "x".into())]);
+            sent += 1;
+            wait_events(sent);
+            main.hot_reload();
+            rep.checks += 1;
+            if rid_of(via.last_reload_id()) != before {
+                rep.mismatch(json!({"what":"an edit of an entry read inside no_record (asked through another cache) reloaded the asset","entry":id}));
+            }
+        }
+        if trace::HAS_HOOKS {
+            let mut last = None;
+            trace::scan(|l| {
+                if l["ev"] == "Graph" && l["key"]["id"] == "via" {
+                    last = Some(l["deps"].clone());
+                }
+            });
+            let mut got: Vec<String> = last.and_then(|d| d.as_array().cloned()).unwrap_or_default().iter()
+                .map(|d| format!("{}:{}", d["k"].as_str().unwrap_or("?"), d["id"].as_str().unwrap_or("?"))).collect();
+            got.sort();
+            rep.checks += 1;
+            if got != vec!["asset:m".to_string()] {
+                rep.mismatch(json!({"what":"dependencies registered for an asset that reads inside no_record asked through another cache","got":got}));
+            }
+        }
+    }
     // the registered dependency set of `mix`: exactly Asset(L0:m), Asset(L0:z)
     if trace::HAS_HOOKS {
         let mut last = None;
@@ -338,6 +395,69 @@ fn probe_cell<U: Probe + assets_manager::Asset>(rep: &mut Report) {
     rep.cases += 1;
 }
 
+/// A loaded value without drop glue (the other code path of the cell): the value built from it is still
+/// dropped exactly once, however the entry leaves the cache, also when a reload replaces the cell.
+#[derive(Clone, Copy)]
+pub struct PlainSeed(pub u8);
+pub struct PlainLoader;
+impl assets_manager::loader::Loader<PlainSeed> for PlainLoader {
+    fn load(content: std::borrow::Cow<[u8]>, _ext: &str) -> Result<PlainSeed, BoxedError> {
+        Ok(PlainSeed(crate::assets::parse_leaf(&content).ok_or("bad")? as u8))
+    }
+}
+impl assets_manager::Asset for PlainSeed {
+    const EXTENSION: &'static str = "x";
+    type Loader = PlainLoader;
+}
+
+fn probe_cell_plain(rep: &mut Report) {
+    use assets_manager::OnceInitCell;
+    let ch = Heap::ctr();
+    let h0 = (ch.0.load(AO::SeqCst), ch.1.load(AO::SeqCst));
+    let live_h = || (ch.0.load(AO::SeqCst) - h0.0) - (ch.1.load(AO::SeqCst) - h0.1);
+    let mut bad = |what: &str| rep.mismatch(json!({"what": what, "type": "OnceInitCell<plain data, heap-owning>"}));
+    let src = MemSource::new(true);
+    for id in ["a", "b", "c", "d", "e"] {
+        src.put(id, "x", b"v1");
+    }
+    {
+        let mut cache = AssetCache::with_source(src.clone());
+        for id in ["a", "b", "c", "d", "e"] {
+            let h = cache.load::<OnceInitCell<PlainSeed, Heap>>(id).unwrap();
+            let g = h.read();
+            if !g.get_or_init(|s: &mut PlainSeed| Heap::make(s.0 + 4)).check(5) { bad("the initialised value is wrong"); }
+        }
+        if live_h() != 5 { bad("live values after five initialisations != 5"); }
+        if !cache.remove::<OnceInitCell<PlainSeed, Heap>>("a") || live_h() != 4 { bad("remove did not drop exactly the stored value"); }
+        let taken = cache.take::<OnceInitCell<PlainSeed, Heap>>("b");
+        if taken.is_none() || live_h() != 4 { bad("take dropped or duplicated the value"); }
+        drop(taken);
+        if live_h() != 3 { bad("the taken cell did not drop its value exactly once"); }
+        let owned = cache.load_owned::<OnceInitCell<PlainSeed, Heap>>("c").unwrap();
+        let _ = owned.get_or_init(|_s: &mut PlainSeed| Heap::make(9));
+        if live_h() != 4 { bad("load_owned + init: live values != 4"); }
+        drop(owned);
+        if live_h() != 3 { bad("the owned cell did not drop its value exactly once"); }
+        // a reload replaces the initialised cell of `e` by a fresh one: the old value goes exactly once
+        let h = cache.load::<OnceInitCell<PlainSeed, Heap>>("e").unwrap();
+        src.put("e", "x", b"v2");
+        src.send(&[OwnedDirEntry::File("e".into(), "x".into())]);
+        let before = rid_of(h.last_reload_id());
+        let t0 = std::time::Instant::now();
+        while rid_of(h.last_reload_id()) == before && t0.elapsed() < std::time::Duration::from_secs(5) {
+            cache.hot_reload();
+        }
+        if rid_of(h.last_reload_id()) == before { bad("the cell was not reloaded"); }
+        if live_h() != 2 { bad("a reload of an initialised cell leaked or double-dropped its value"); }
+        cache.clear();
+        if live_h() != 0 { bad("clear did not drop every stored value exactly once"); }
+        let h = cache.load::<OnceInitCell<PlainSeed, Heap>>("d").unwrap();
+        let _ = h.read().get_or_init(|_s: &mut PlainSeed| Heap::make(1));
+    }
+    if live_h() != 0 { bad("after the cache is gone not every value was dropped exactly once"); }
+    rep.cases += 1;
+}
+
 pub fn c13_types(_args: &[String]) {
     let mut rep = Report::default();
     probe_type::<Zst>(&mut rep);
@@ -347,6 +467,7 @@ pub fn c13_types(_args: &[String]) {
     probe_cell::<Zst>(&mut rep);
     probe_cell::<OneByte>(&mut rep);
     probe_cell::<Align64>(&mut rep);
+    probe_cell_plain(&mut rep);
     // type erasure: (stored type, requested type) pairs
     let src = MemSource::new(false);
     src.put("a", "x", b"v1");
